@@ -230,6 +230,12 @@ fn section(s: &Value) -> Value {
     }
 }
 
+/// order independent of the raw ids (schedule dependent for the batch trackers)
+fn order_key(a: &Value, b: &Value) -> std::cmp::Ordering {
+    let k = |x: &Value| (x["scene"].as_u64().unwrap(), x["epoch"].as_u64().unwrap(), x["length"].as_u64().unwrap(), x["observed"][0].as_f64().unwrap(), x["observed"][1].as_f64().unwrap());
+    k(a).partial_cmp(&k(b)).unwrap()
+}
+
 enum T {
     S(Sort),
     BS(BatchSort),
@@ -329,6 +335,37 @@ fn tracker_section(s: &Value) -> Value {
                     }
                 }
             }
+            "predict_multi" => {
+                let traces = |ts: &[SortTrack]| Value::Array(ts.iter().map(track_trace).collect());
+                let parts = op["parts"].as_array().unwrap();
+                let mut got: Vec<(u64, Vec<SortTrack>)> = match &mut tr {
+                    T::BS(t) => {
+                        let (mut req, res) = PredictionBatchRequest::<(Universal2DBox, Option<i64>)>::new();
+                        for p in parts {
+                            for d in p["dets"].as_array().unwrap() {
+                                req.add(p["scene"].as_u64().unwrap(), (mk_ubox(&d["box"]), d["custom"].as_i64()));
+                            }
+                        }
+                        t.predict(req);
+                        (0..res.batch_size()).map(|_| res.get()).collect()
+                    }
+                    T::BV(t) => {
+                        let feats: Vec<Vec<Option<Vec<f32>>>> = parts.iter().map(|p| p["dets"].as_array().unwrap().iter().map(|d| d["feature"].as_array().map(|a| a.iter().map(f).collect())).collect()).collect();
+                        let (mut req, res) = PredictionBatchRequest::<VisualSortObservation>::new();
+                        for (pi, p) in parts.iter().enumerate() {
+                            for (i, d) in p["dets"].as_array().unwrap().iter().enumerate() {
+                                req.add(p["scene"].as_u64().unwrap(), VisualSortObservation::new(feats[pi][i].as_deref(), of(&d["quality"]), mk_ubox(&d["box"]), d["custom"].as_i64()));
+                            }
+                        }
+                        t.predict(req);
+                        (0..res.batch_size()).map(|_| res.get()).collect()
+                    }
+                    _ => panic!("predict_multi on a simple tracker"),
+                };
+                let nres = got.len();
+                got.sort_by_key(|x| x.0);
+                out.push(json!([nres, got.iter().map(|(sc, ts)| json!([sc, traces(ts)])).collect::<Vec<_>>()]));
+            }
             "skip" => {
                 let n = op["n"].as_u64().unwrap() as usize;
                 match &mut tr {
@@ -352,7 +389,7 @@ fn tracker_section(s: &Value) -> Value {
                     T::V(t) => t.wasted().into_iter().map(|x| wasted_vis_trace(&WastedVisualSortTrack::from(x))).collect(),
                     T::BV(t) => t.wasted().into_iter().map(|x| wasted_vis_trace(&WastedVisualSortTrack::from(x))).collect(),
                 };
-                v.sort_by_key(|x| x["id"].as_u64().unwrap());
+                v.sort_by(order_key);
                 out.push(Value::Array(v));
             }
             "idle" => {
@@ -365,7 +402,7 @@ fn tracker_section(s: &Value) -> Value {
                 .iter()
                 .map(track_trace)
                 .collect();
-                v.sort_by_key(|x| x["id"].as_u64().unwrap());
+                v.sort_by(order_key);
                 out.push(Value::Array(v));
             }
             "clear_wasted" => {
@@ -378,12 +415,13 @@ fn tracker_section(s: &Value) -> Value {
                 out.push(Value::Null);
             }
             // the Python `shard_stats` is documented as the amount of stored tracks per shard
-            _ => out.push(json!(match &tr {
-                T::S(t) => t.active_shard_stats(),
-                T::BS(t) => t.active_shard_stats(),
-                T::V(t) => t.active_shard_stats(),
-                T::BV(t) => t.active_shard_stats(),
-            })),
+            _ => out.push(match &tr {
+                T::S(t) => json!(t.active_shard_stats()),
+                T::V(t) => json!(t.active_shard_stats()),
+                // (only the total is schedule independent for the batch trackers)
+                T::BS(t) => json!(t.active_shard_stats().iter().sum::<usize>()),
+                T::BV(t) => json!(t.active_shard_stats().iter().sum::<usize>()),
+            }),
         }
     }
     Value::Array(out)
